@@ -275,7 +275,7 @@ fn run_request_case(i: u64, rng: &mut Rng, rep: &mut Report) {
 }
 
 pub fn requests(ctx: &Ctx) -> Report {
-    let n = ctx.n(60_000, 6_000_000);
+    let n = ctx.n(1_500_000, 1_000_000_000);
     let mut r = par_cases(ctx, "requests", n, ctx.secs(20, 400), |i, rng, rep| run_request_case(i, rng, rep));
     r.sample(json!({"lane":"requests","structs":["PagedResults","SyncRequest","PreRead","PostRead","Assertion","MatchedValues","ProxyAuth","TxnSpec","ManageDsaIT","RelaxRules","WhoAmI","PasswordModify","StartTxn","EndTxn"]}));
     r
@@ -435,7 +435,7 @@ fn run_response_case(i: u64, rng: &mut Rng, rep: &mut Report) {
 }
 
 pub fn responses(ctx: &Ctx) -> Report {
-    let n = ctx.n(60_000, 6_000_000);
+    let n = ctx.n(1_500_000, 1_000_000_000);
     let mut r = par_cases(ctx, "responses", n, ctx.secs(20, 400), |i, rng, rep| run_response_case(i, rng, rep));
     r.sample(json!({"lane":"responses","structs":["PagedResults","SyncState","SyncDone","SyncInfo (4 choices)","PreReadResp","PostReadResp","WhoAmIResp","PasswordModifyResp","StartTxnResp"],"note":"values reference-encoded with minimal or random non-minimal length octets; BOOLEAN TRUE as FF or another non-zero octet"}));
     r
@@ -443,7 +443,7 @@ pub fn responses(ctx: &Ctx) -> Report {
 
 /// A control list survives the message envelope unchanged (real decoder, hook H4).
 pub fn envelope(ctx: &Ctx) -> Report {
-    let n = ctx.n(40_000, 4_000_000);
+    let n = ctx.n(1_000_000, 500_000_000);
     par_cases(ctx, "envelope", n, ctx.secs(15, 300), |i, rng, rep| {
         let ctrls = loop {
             if let Some(c) = gen::gen_resp_controls(rng) {
